@@ -1,8 +1,8 @@
 #!/verif/.venv/bin/python
 # Replay of a solver counterexample against the unmodified code (no shims).
-# property=C09 kernel=atomic label=atomic:eom_off#0
+# property=C09 kernel=l1 label=c09:raise_unchanged
 import sys
 sys.path[:0] = ['/repo' + "/pulser-core", '/repo' + "/pulser-simulation", "/verif"]
 from symx.replay import replay
-sys.exit(replay(check='checks.c09', kernel='atomic', shape={'device': 'virt_maxseq', 'prefix': 'p2', 'ops': ['eom_off']},
-                assignment={'pd1/k': 2, 'pd2/k': 983, 'buf#1.start': 0, 'buf#1.end': 0, 'buf#2.start': 0, 'buf#2.end': 1, 'buf#5.start': 0, 'buf#5.end': 9, 'buf#6.start': 0, 'buf#6.end': 8}, label='atomic:eom_off#0'))
+sys.exit(replay(check='checks.c09', kernel='l1', shape={'own': {'clock': 1, 'local': True, 'slots': ['pulseA'], 'mod': True, 'pj': 'custom', 'targets_a': ['q0'], 'targets_b': ['q1']}, 'op': ['add_target', 'diff'], 'maxseq': True, 'nbarriers': 1},
+                assignment={'max_sequence_duration': 4, 'own.min_duration': 1, 'own.tr': 1, 'own.pjt': 0, 'own.min_retarget': 5, 'own.fixed_retarget': 1, 'own.s0.dur': 1, 'buf#1.start': 0, 'buf#1.end': 0, 'buf#2.start': 0, 'buf#2.end': 1}, label='c09:raise_unchanged'))
